@@ -273,14 +273,22 @@ func runC19(c *Ctx) {
 	for _, b := range bodies {
 		directNodes(b.Body, func(n ast.Node) bool {
 			rs, ok := n.(*ast.RangeStmt)
-			if !ok || !isRegMap(rs.X) {
+			if !ok {
+				return true
+			}
+			// the registry map itself, or a local that was assigned it (an alias of the same map, not a snapshot)
+			regX := rs.X
+			if !isRegMap(regX) && b.Decl != nil {
+				regX = unfoldLocals(p, b.Decl, rs.X)
+			}
+			if !isRegMap(regX) {
 				return true
 			}
 			nb++
 			key := funcKey(p, b.Decl) + "|broadcast-loop"
 			fc := newFnCFG(b.Body, info)
 			held := normHeld(fc.heldAt(rs), false)
-			c.check(held[muKeyOf(rs.X)], "C19.R3", key+"|reads-registry-under-lock", c.pos(rs.Pos()), "registry is iterated under its mutex "+heldList(held),
+			c.check(held[muKeyOf(regX)], "C19.R3", key+"|reads-registry-under-lock", c.pos(rs.Pos()), "registry is iterated under its mutex "+heldList(held),
 				"the broadcast loop iterates the client registry without holding its mutex "+heldList(held))
 			// R2: no blocking channel op directly in the loop
 			blocking := ""
